@@ -40,8 +40,12 @@ func NewEval(opts CompilerOptions, globals Object, args ...Object) *Eval {
 
 // Run compiles, runs given script and returns last value on stack.
 func (r *Eval) Run(ctx context.Context, script []byte) (Object, *Bytecode, error) {
+	// modules compiled for a script which fails to compile are not added to
+	// constants, restore the module store not to refer to them.
+	moduleStore := r.moduleStore.clone()
 	bytecode, err := compileScript(script, &r.Opts, &r.moduleStore)
 	if err != nil {
+		r.moduleStore = moduleStore
 		return nil, nil, err
 	}
 
